@@ -52,7 +52,9 @@ Section Run.
       if is_tag "O" o && is_tag "R" r then
         let '(st', mobs) := step S st o in
         let iobs := args r in
-        let mm := if lines_eqb mobs iobs then [] else [bs "M" :: nat_to_dec idx :: mobs] in
+        (* a model observation [unsup] means: outside the modelled fragment, not compared *)
+        let mm := if lines_eqb mobs iobs || lines_eqb mobs [bs "unsup"] then []
+                  else [bs "M" :: nat_to_dec idx :: mobs] in
         let ff := map (fun c => [bs "F"; nat_to_dec idx; c]) (oracle S st st' o iobs) in
         let tt := match tags S st st' o iobs with [] => [] | t => [bs "T" :: nat_to_dec idx :: t] end in
         mm ++ ff ++ tt ++ run_ops st' (Datatypes.S idx) ls'
